@@ -17,9 +17,8 @@ _OBS = []
 def _discharge(i):
     ob = _OBS[i]
     if ob.kind == "cover":
-        v, m, secs, be = eng.solve(ob.hyps, ob.goal, 8000, want_model=False)
-        verdict = "discharged" if v == "refuted" else ("vacuous" if v == "discharged" else "unknown")
-        return i, verdict, None, secs, be
+        v, m, secs, be = eng.solve_cover(ob.hyps)
+        return i, v, None, secs, be
     v, m, secs, be = eng.solve(ob.hyps, ob.goal)
     return i, v, m, secs, be
 
